@@ -4,31 +4,144 @@ import (
 	"encoding/json"
 	"fmt"
 	"os"
+
+	"verifh/ev"
+	"verifh/pool"
+	"verifh/vsched"
 )
 
-type replayFn func(detail json.RawMessage) int
+// replaySpec makes a violation re-executable: the pool job kind and payload.
+type replaySpec struct {
+	Kind string          `json:"kind"`
+	Job  json.RawMessage `json:"job"`
+}
 
-var replays = map[string]replayFn{}
+func mkReplay(kind string, job interface{}) replaySpec {
+	b, _ := json.Marshal(job)
+	return replaySpec{kind, b}
+}
 
+// exploreOneJob re-runs exactly one schedule of a scenario.
+type exploreOneJob struct {
+	Scenario string          `json:"scenario"`
+	Arg      json.RawMessage `json:"arg"`
+	Schedule []int           `json:"schedule"`
+}
+
+func init() {
+	pool.Register("explore1", func(data json.RawMessage) (interface{}, error) {
+		var j exploreOneJob
+		if err := json.Unmarshal(data, &j); err != nil {
+			return nil, err
+		}
+		mk := scenarios[j.Scenario]
+		if mk == nil {
+			return nil, fmt.Errorf("unknown scenario %q", j.Scenario)
+		}
+		sc := mk(j.Arg)
+		diverged := ""
+		x := sc.Run(func(step int, enabled []int, running int, runningEnabled bool) int {
+			if step < len(j.Schedule) {
+				if j.Schedule[step] >= len(enabled) {
+					diverged = fmt.Sprintf("step %d: choice %d of %v", step, j.Schedule[step], enabled)
+					return 0
+				}
+				return j.Schedule[step]
+			}
+			return 0
+		})
+		out := &jobReport{}
+		if diverged != "" {
+			out.fail("harness/replay-diverged", diverged)
+		}
+		for _, v := range x.Violations {
+			out.fail(v.Sig, v.Detail)
+		}
+		if x.HarnessErr != "" {
+			out.fail("harness/"+x.HarnessErr, nil)
+		}
+		return out, nil
+	})
+}
+
+// sigsOf extracts violation signatures from a job result of any kind.
+func sigsOf(kind string, r pool.Result) []string {
+	var out []string
+	if r.Panic != "" {
+		return []string{"panic/" + kind + "/" + firstLine(r.Panic)}
+	}
+	if r.Timeout || r.Err != "" {
+		return nil
+	}
+	var probe struct {
+		Violations []vio `json:"violations"`
+	}
+	json.Unmarshal(r.Data, &probe)
+	for _, v := range probe.Violations {
+		out = append(out, v.Sig)
+	}
+	return out
+}
+
+// confirmer returns the function installed as ev.Run.Confirm.
+func confirmer() func(replay interface{}) []string {
+	return func(replay interface{}) []string {
+		b, _ := json.Marshal(replay)
+		var spec replaySpec
+		if json.Unmarshal(b, &spec) != nil || spec.Kind == "" {
+			return nil
+		}
+		p := pool.New(1)
+		var job interface{}
+		json.Unmarshal(spec.Job, &job)
+		res := p.Map(spec.Kind, []interface{}{job}, nil)
+		return sigsOf(spec.Kind, res[0])
+	}
+}
+
+func newRun(prop, tier, level string) *ev.Run {
+	r := ev.NewRun(prop, tier, level)
+	r.Confirm = confirmer()
+	return r
+}
+
+// replay re-executes one recorded violation in this process and prints what it produced.
 func replay(path string) int {
 	b, err := os.ReadFile(path)
 	if err != nil {
 		fmt.Fprintln(os.Stderr, err)
 		return 3
 	}
-	var r struct {
-		Property  string          `json:"property"`
-		Signature string          `json:"signature"`
-		Detail    json.RawMessage `json:"detail"`
+	var rec struct {
+		Property  string `json:"property"`
+		Signature string `json:"signature"`
+		Detail    struct {
+			Replay replaySpec `json:"replay"`
+		} `json:"detail"`
 	}
-	if err := json.Unmarshal(b, &r); err != nil {
+	if err := json.Unmarshal(b, &rec); err != nil {
 		fmt.Fprintln(os.Stderr, err)
 		return 3
 	}
-	f := replays[r.Property]
-	if f == nil {
-		fmt.Printf("no replayer for %s; recorded detail:\n%s\n", r.Property, r.Detail)
+	if rec.Detail.Replay.Kind == "" {
+		fmt.Printf("violation %s of %s carries no replay object; recorded detail:\n%s\n", rec.Signature, rec.Property, b)
 		return 0
 	}
-	return f(r.Detail)
+	fmt.Printf("replaying %s %s: job kind %q\n  %s\n", rec.Property, rec.Signature, rec.Detail.Replay.Kind, rec.Detail.Replay.Job)
+	p := pool.New(1)
+	var job interface{}
+	json.Unmarshal(rec.Detail.Replay.Job, &job)
+	res := p.Map(rec.Detail.Replay.Kind, []interface{}{job}, nil)
+	sigs := sigsOf(rec.Detail.Replay.Kind, res[0])
+	fmt.Printf("signatures produced: %q\n", sigs)
+	for _, s := range sigs {
+		if s == rec.Signature {
+			fmt.Printf("REPRODUCED %s\n%s\n", s, tailStr(string(res[0].Data), 3000))
+			return 1
+		}
+	}
+	fmt.Println("not reproduced on the current tree")
+	return 0
 }
+
+var _ = vsched.Options{}
